@@ -26,6 +26,10 @@ def _search_shape(ctx, f, what, elem_desc):
     ok_shape = ok_shape and pos.kind == "call" and method_name(pos.a) in ("Iterator::position",)
     sk = peel(pos.kids[0]) if ok_shape else None
     ok_shape = ok_shape and sk.kind == "call" and method_name(sk.a) == "Iterator::skip" and peel(sk.kids[1]).kind == "arg"
+    if not ok_shape:
+        lp = _search_shape_loop(ctx, f, what, o)
+        if lp is not None:
+            return lp
     ctx.check(ok_shape, what + ":first-hit", f.where(), "%s: the *first* position at or after `start` is returned (iter().skip(start).position(..))" % what,
               "%s is %s" % (what, r.show()[:160]))
     if not ok_shape:
@@ -49,6 +53,48 @@ def _search_shape(ctx, f, what, elem_desc):
             ok = any(s.kind == "arg" and s.a == 2 for s in sides) and any(s.kind == "field" and s.a == "0" for s in sides)
         ctx.check(ok, what + ":offset", cb2.where(), "the relative position is shifted back by `start` (result >= start)", "the result mapping is %s" % r2.show()[:80])
     return start_arg
+
+
+def _search_shape_loop(ctx, f, what, o):
+    """explicit form: `for (i, x) in xs.iter().enumerate().skip(start) { if matches(..) { return Some(i) } } None`.
+    Returns the start argument if the function has this form (its clauses are then checked), None if it has another form."""
+    from ..cfgq import bool_edges
+    nexts = [(bb, t) for bb, t in f.calls() if method_name(callee_name(t, resolved=False) or "") == "Iterator::next"]
+    ms = [(bb, t) for bb, t in f.calls() if (callee_name(t) or "").endswith("Expectation::matches")]
+    if len(nexts) != 1 or len(ms) != 1 or len({h for _t, h in f.back_edges()}) != 1:
+        return None
+    (nb, nt), (mb, mt) = nexts[0], ms[0]
+    it = o.operand(nt["args"][0])
+    skips = [n for n in it.walk() if n.kind == "call" and method_name(n.a) == "Iterator::skip"]
+    if len(skips) != 1 or peel(skips[0].kids[1]).kind != "arg":
+        return None
+    sk = skips[0]
+    inner_enum = any(k.kind == "call" and method_name(k.a) == "Iterator::enumerate" for k in sk.kids[0].walk())
+    outer_enum = any(n.kind == "call" and method_name(n.a) == "Iterator::enumerate" and any(k is sk for k in n.walk()) for n in it.walk())
+    ctx.check(inner_enum and not outer_enum, what + ":first-hit", f.loc(nb),
+              "%s: explicit loop over iter().enumerate().skip(start): indices are absolute and the search starts at `start`" % what,
+              "%s: the loop does not enumerate before skipping `start` (relative indices are returned)" % what)
+    ve, rv = variant_edges(f, nt["target"])
+    be = bool_edges(f, mt["target"])
+    if ve is None or be is None or set(ve) != {"Some", "None"}:
+        return None
+    t_true, t_false = be
+    for d in f.defs.get(0, []):
+        tree = o._def(d, 0, ())
+        if tree.kind == "agg" and tree.a[0].endswith("Some"):
+            pay = peel(tree.kids[0])
+            idx = pay.kind == "field" and pay.a == "0" and pay.kids[0].kind == "field" and pay.kids[0].a == "0" and \
+                any(n.kind == "call" and method_name(n.a) == "Iterator::next" for n in pay.walk())
+            on_true = d[0] in f.reachable(t_true) and d[0] not in f.reachable(0, removed_edges=[(mt["target"], t_true)])
+            ctx.check(idx and on_true, what + ":predicate", f.loc(d[0]), "Some(index of the current element) is returned exactly on the matches() true edge",
+                      "Some(%s) is returned %s" % (pay.show()[:60], "on the matching edge" if on_true else "not (only) on the matching edge"))
+        elif tree.kind == "agg" and tree.a[0].endswith("None"):
+            ctx.check(d[0] not in f.reachable(0, removed_edges=[(nt["target"], ve["None"])]), what + ":offset", f.loc(d[0]),
+                      "None is returned only when the iterator is exhausted", "None is returned before the iterator is exhausted")
+        else:
+            ctx.bad(what + ":first-hit", f.loc(d[0]), "%s returns %s" % (what, tree.show()[:80]))
+    ctx.check(nb in f.reachable(t_false), what + ":continue", f.loc(mb), "a non-matching element continues the search")
+    return peel(sk.kids[1]).a
 
 
 def _tuple_field_keys(body, local, i):
